@@ -61,7 +61,16 @@ class Lexer(object):
     @TOKEN(r'("(\\.|[^"\\])*")|(\'(\\.|[^\'\\])*\')')
     def t_STRING(self, t):
         t.lexer.lineno += t.value.count("\n")
-        t.value = t.value.strip("\"'").encode().decode("unicode_escape")
+        try:
+            t.value = (
+                t.value[1:-1]
+                .encode("latin-1", "backslashreplace")
+                .decode("unicode_escape")
+            )
+        except UnicodeDecodeError:
+            raise SyntaxError(
+                "Invalid escape sequence in string at position {0}".format(t.lexpos)
+            )
         return t
 
     @TOKEN(r"[\r\n]+")
